@@ -141,7 +141,15 @@ end
 
 /-! chain -/
 
-def entry (prev prevBack : Option CLog) (log : Log) : Json × CLog × CLog :=
+/-- the arguments `InsertLogs` hands to the database for the row, column by column, as the driver receives them
+(`BigInt.Value` = decimal text, `Time.Value` = RFC 3339 text, the hash as bytes — hex here —, the key AS IT IS) -/
+def colsJ (r : Row) : Json :=
+  Json.mkObj [("ledger", Json.str r.ledger), ("id", Json.str (toString r.id)), ("type", Json.str r.type),
+    ("hash", Json.str (Sha256.hex (r.hash.getD []))), ("date", Json.str (formatTime r.date)), ("ik", Json.str r.idempotencyKey)]
+
+/-- `prevRow` / `prevRowB`: the previous stored row read back (plain / through jsonb): a reader of the TABLE re-verifies an entry against
+the row before it, not against the entry the writer held in memory -/
+def entry (prev prevBack prevRow prevRowB : Option CLog) (log : Log) : Json × CLog × CLog × CLog × CLog :=
   let cl := chainLog H prev log
   let tree := LogM.toJson cl
   let text := encodeText tree
@@ -152,32 +160,37 @@ def entry (prev prevBack : Option CLog) (log : Log) : Json × CLog × CLog :=
       let re := chainLog H prevBack back.log
       [("dec", Json.mkObj [("ok", dump back)]), ("rehash", Json.str (hashHex re)), ("reid", jInt re.id),
        ("remarshal_same", Json.bool (encodeText (LogM.toJson back) == text))]
-  let row : Json := match toCore (toRow "l" cl) with
-    | .error e => Json.mkObj [("panic", errD e)]
-    | .ok core =>
-      let re := chainLog H prev core.log
-      Json.mkObj [("ok", dump core), ("rehash", Json.str (hashHex re)), ("data", Json.str (encodeText (payloadJ cl.log.data)))]
   let r0 := toRow "l" cl
-  let rowB : Json := match toCore { r0 with data := jsonb r0.data } with
-    | .error e => Json.mkObj [("panic", errD e)]
-    | .ok core => Json.mkObj [("ok", dump core), ("rehash", Json.str (hashHex (chainLog H prev core.log)))]
+  let (row, rowCore) : Json × CLog := match toCore r0 with
+    | .error e => (Json.mkObj [("panic", errD e)], cl)
+    | .ok core =>
+      let re := chainLog H prevRow core.log
+      (Json.mkObj [("ok", dump core), ("rehash", Json.str (hashHex re)), ("data", Json.str (encodeText (payloadJ cl.log.data))),
+        ("cols", colsJ r0)], core)
+  let (rowB, rowBCore) : Json × CLog := match toCore { r0 with data := jsonb r0.data } with
+    | .error e => (Json.mkObj [("panic", errD e)], cl)
+    | .ok core => (Json.mkObj [("ok", dump core), ("rehash", Json.str (hashHex (chainLog H prevRowB core.log)))], core)
   let back := match decoded with | .ok b => b | .error _ => cl
   (Json.mkObj ([("id", jInt cl.id), ("hash", Json.str (hashHex cl)), ("dump", dump cl), ("bytes", Json.str text), ("row", row),
       ("row_jsonb", rowB)] ++ decFields),
-   cl, back)
+   cl, back, rowCore, rowBCore)
 
 def chain (specs : List Json) : Except String Json := do
   let mut prev : Option CLog := none
   let mut prevBack : Option CLog := none
+  let mut prevRow : Option CLog := none
+  let mut prevRowB : Option CLog := none
   let mut out : Array Json := #[]
   for s in specs do
     match ← logOf s with
     | none => out := out.push (Json.mkObj [("input_error", "timestamp")])
     | some log =>
-      let (e, cl, back) := entry prev prevBack log
+      let (e, cl, back, rowCore, rowBCore) := entry prev prevBack prevRow prevRowB log
       out := out.push e
       prev := some cl
       prevBack := some back
+      prevRow := some rowCore
+      prevRowB := some rowBCore
   pure (Json.mkObj [("entries", Json.arr out)])
 
 /-! arbitrary JSON text → tree (numbers: integers only) -/
@@ -232,6 +245,7 @@ def handle : Handler := fun j => do
     pure (Json.mkObj [("sha", Json.str (Sha256.hex (Sha256.sha256 (unhex h.toList))))])
   | "v1" => pure (Json.mkObj [("unmodelled", "legacy v1 rows (migrations_v1.go)")])
   | "ikbytes" => pure (Json.mkObj [("unmodelled", "a Go string that is not valid UTF-8")])
+  | "keybytes" => pure (Json.mkObj [("unmodelled", "bytes of an HTTP request line (possibly not valid UTF-8)")])
   | _ => throw s!"unknown kind {kind}"
 
 end Driver.LogD
